@@ -751,3 +751,7 @@ M("C26", "sweep direction becomes a pair of string constants (identity test brea
 M("C26", "twin: sweep direction compared by equality", "twin",
   [(IMPL, "        if self._swipe_direction is SwipeDirection.LEFT_TO_RIGHT:", "        if self._swipe_direction == SwipeDirection.LEFT_TO_RIGHT:"),
    (IMPL, "            assert self._swipe_direction is SwipeDirection.LEFT_TO_RIGHT", "            assert self._swipe_direction == SwipeDirection.LEFT_TO_RIGHT")])
+M("C16", "emu-sv solver choice inverted", "kill", [(SVI, "        if self.pulser_lindblads:\n            stepper = EvolveDensityMatrix", "        if not self.pulser_lindblads:\n            stepper = EvolveDensityMatrix")], "DISPATCH-sv")
+M("C16", "density-matrix state evolved by the state-vector stepper", "kill", [(SVI, "            stepper = EvolveDensityMatrix\n            state_type = DensityMatrix", "            stepper = EvolveStateVector\n            state_type = DensityMatrix")], "DISPATCH-sv")
+M("C01", "noiseless runs use the density-matrix solver", "kill", [(SVI, "            stepper = EvolveStateVector\n            state_type = StateVector", "            stepper = EvolveDensityMatrix\n            state_type = DensityMatrix")], "DISPATCH-sv")
+M("C16", "twin: solver chosen with a length test", "twin", [(SVI, "        if self.pulser_lindblads:\n            stepper = EvolveDensityMatrix", "        if len(data.lindblad_ops) > 0:\n            stepper = EvolveDensityMatrix")])
